@@ -32,7 +32,7 @@ fn plan(cfg: &RunCfg) -> EncPlan {
     let mut p = EncPlan::new(&ALL_FORMS);
     p.len_max = 249;
     p.len_reps = cfg.pick(1, 40) as u32;
-    p.random_per_form = cfg.pick(20_000, 600_000);
+    p.random_per_form = cfg.pick(20_000, 2_000_000);
     p.param_sweep_reps = cfg.pick(2, 40) as u32;
     p.addr_sweep_reps = cfg.pick(1, 10) as u32;
     p.pair_forms = vec![Form::SetEid, Form::QueryRate, Form::VendorDefined, Form::RGetUuid, Form::RGetVer, Form::GenSpdmReq];
